@@ -115,24 +115,28 @@ func (c *WhipClient) Kick(id string, user *string, message string) error {
 }
 
 func (c *WhipClient) Close() error {
+	// don't hold c.mu while calling into the group: AddClient and
+	// autoLockKick call c.Permissions() with the group locked.
 	c.mu.Lock()
-	defer c.mu.Unlock()
 	g := c.group
+	conn := c.connection
+	c.connection = nil
+	c.mu.Unlock()
 	if g == nil {
 		return nil
 	}
-	if c.connection != nil {
-		id := c.connection.Id()
-		c.connection.pc.OnICEConnectionStateChange(nil)
-		c.connection.pc.Close()
-		c.connection = nil
-		for _, c := range g.GetClients(c) {
-			c.PushConn(g, id, nil, nil, "")
+	if conn != nil {
+		id := conn.Id()
+		conn.pc.OnICEConnectionStateChange(nil)
+		conn.pc.Close()
+		for _, cc := range g.GetClients(c) {
+			cc.PushConn(g, id, nil, nil, "")
 		}
-		c.connection = nil
 	}
 	group.DelClient(c)
+	c.mu.Lock()
 	c.group = nil
+	c.mu.Unlock()
 	return nil
 }
 
